@@ -264,8 +264,13 @@ class Emitter:
             bm = (' unsigned char body_%s[%d]; void fill_%s(){ for(int i=0;i<%d;i++) body_%s[i]=(unsigned char)(p*13+i*3+%d); } bool ok_%s() const { for(int i=0;i<%d;i++) if(body_%s[i]!=(unsigned char)(p*13+i*3+%d)) return false; return true; }'
                   % (n, body, n, body, n, len(n), n, body, n, len(n))) if body else ''
             fill = (' fill_%s();' % n) if body else ''
+            # an exit point's event that is built from another event type gets a different layout (a tag in front of the
+            # payload): if the library hands the unconverted object over instead of converting it, the tag is wrong
+            tagged = bool([x for x in convs.get(n, ()) if x != n]) and not b
             if b:
                 w('struct %s : %s {%s %s(int p_=0):%s(p_){%s}' % (n, b, bm, n, b, fill))
+            elif tagged:
+                w('struct %s { int tagx; int p;%s %s(int p_=0):tagx(0x5a5a5a),p(p_){%s}' % (n, bm, n, fill))
             else:
                 w('struct %s { int p;%s %s(int p_=0):p(p_){%s}' % (n, bm, n, fill))
             for src in sorted(convs.get(n, ())):
@@ -276,11 +281,13 @@ class Emitter:
             n = e['name']
             for src in sorted(convs.get(n, ())):
                 if src != n:
-                    w('inline %s::%s(%s const& e):p(e.p){}' % (n, n, src) if not e.get('base') else
+                    w('inline %s::%s(%s const& e):tagx(0x5a5a5a),p(e.p){}' % (n, n, src) if not e.get('base') else
                       'inline %s::%s(%s const& e):%s(e.p){}' % (n, n, src, e['base']))
         for e in sp['events']:
             if not e.get('kleene'):
                 chk = (' + (e.ok_%s() ? "" : "!CORRUPT")' % e['name']) if e.get('body') else ''
+                if [x for x in convs.get(e['name'], ()) if x != e['name']] and not e.get('base'):
+                    chk += ' + (e.tagx == 0x5a5a5a ? "" : "!NOTCONVERTED")'
                 w('inline std::string rt_describe(const %s& e){ return "%s#" + std::to_string(e.p)%s; }' % (e['name'], e['name'], chk))
         for f in sp.get('flags', []):
             w('struct %s {};' % f)
